@@ -11,7 +11,8 @@ def add(pid, text, note, technique, ref, level=MC, engine='tlc+replay'):
               "level_note": note, "technique": technique}
 
 add('C01', "TLC evaluates the TLA+ documented-semantics operator PegSem!Parse on every (grammar, text) of an exhaustive small universe "
-    "(all expressions with <=2 operator nodes over 9 leaves) plus seeded random core-language grammars x all texts up to a length bound; "
+    "(all expressions with <=2 operator nodes over 9 leaves) plus seeded random core-language grammars and the constructs the documentation "
+    "defines by expansion (rule includes, based rules, @override) x all texts up to a length bound; "
     "each expected outcome (accept/reject, end offset, AST) is replayed into the real compiled model. Exhaustive within the stated bounds, "
     "so a change to AST assembly, choice order, repetition, lookahead or whitespace placement that alters any case of the universe is reported. "
     "Code->spec: executions of the real engine recorded through the Tracer seam (enter/ok/fail/cut/match events) are validated by TLC against "
@@ -28,7 +29,8 @@ add('C02', "For every grammar of the universe TLC evaluates PegSem!Parse and mod
     "nameguard off, whitespace override, parseinfo}; the generated parser must follow its flavour of the machine on every shape (value included), and "
     "its outcome must equal the model's. A difference between the two back-ends is printed as a known finding (KF-C02-1 last-node binding, KF-C02-2 "
     "define only in sequences) only if the grammar is in the finding's scope AND the two flavours predict exactly the two observed outcomes; anything "
-    "else is a violation.",
+    "else is a violation. Executions of generated parsers (and of the model on the same cases) are recorded through the Tracer seam and validated by "
+    "TLC against PegTrace in the matching flavour.",
     "Trusted: TLC, Python re, projections in harness/absgrammar.py. A departure common to both back-ends is C01's verdict, not C02's.",
     "TLA+ specs PegSem (oracle) and PegMachine in model and generated-parser flavours model-checked by TLC + spec->code replay into generated parsers and the model", "5 C02, 0.4")
 add('C03', "TLC evaluates PegSem!Parse (seed growing with a dynamic head, docs/left_recursion.rst) on 16 families of layered left-recursive grammars "
